@@ -3,6 +3,7 @@
 set -u
 cd /verif
 mkdir -p work evidence .cache/numba coq/gen
+/venv/bin/python tools/py2coq/effects.py /repo/fteikpy coq/gen/Effects.v
 /venv/bin/python tools/py2coq/py2coq.py --pkg /repo/fteikpy --out coq/gen || echo "translator reported failures (checks will report them)"
 cd coq
 coq_makefile -f _CoqProject -o Makefile >/dev/null 2>&1
